@@ -48,17 +48,20 @@ impl crate::io::device::Partition for MemPartition {
 
 /// IoEngine over a MemDev. Partition base pages are looked up by partition id (ids 0..4). Reads and writes are
 /// page-aligned and whole pages (what the tombstone log and the scanner issue); anything else fails the harness.
+/// `FAIL = false`: the engine never fails - its results are the literal `Ok(())`, so no `Result<_, Error>` value with a
+/// symbolic discriminant exists and CBMC does not explore the drop glue of `Error` (Backtrace frames, anyhow source, context
+/// strings) on infeasible paths.
 #[derive(Debug)]
-pub struct MemIo<const NP: usize> {
+pub struct MemIo<const NP: usize, const FAIL: bool = false> {
     pub dev: std::sync::Arc<MemDev<NP>>,
     pub base_pages: [usize; 4],
     /// if set, the n-th read (0-based) returns an I/O error instead of data
     pub fail_read_at: Option<usize>,
     pub reads: std::cell::Cell<usize>,
 }
-unsafe impl<const NP: usize> Send for MemIo<NP> {}
-unsafe impl<const NP: usize> Sync for MemIo<NP> {}
-impl<const NP: usize> crate::io::engine::IoEngine for MemIo<NP> {
+unsafe impl<const NP: usize, const FAIL: bool> Send for MemIo<NP, FAIL> {}
+unsafe impl<const NP: usize, const FAIL: bool> Sync for MemIo<NP, FAIL> {}
+impl<const NP: usize, const FAIL: bool> crate::io::engine::IoEngine for MemIo<NP, FAIL> {
     fn read(
         &self,
         mut buf: Box<dyn crate::io::bytes::IoBufMut>,
@@ -71,7 +74,7 @@ impl<const NP: usize> crate::io::engine::IoEngine for MemIo<NP> {
         let first = self.base_pages[partition.id() as usize] + offset as usize / HPAGE;
         let idx = self.reads.get();
         self.reads.set(idx + 1);
-        let res = if self.fail_read_at == Some(idx) {
+        let res = if FAIL && self.fail_read_at == Some(idx) {
             Err(foyer_common::error::Error::new(foyer_common::error::ErrorKind::Io, "harness: injected read error"))
         } else {
             let mut p = 0;
